@@ -563,3 +563,45 @@ def forward(fn, init, transfer, join, edge=None, max_iter=10000):
                 ins[s] = es
                 work.add(s)
     return ins
+
+
+# ---------------------------------------------------------------- global initialisers
+
+def init_value(unit, n, tid=None):
+    """python value of an initialiser expression tree: ints, lists (arrays / structs
+    positionally), strings for string literals; None when not constant."""
+    if n is None:
+        return None
+    k = n.get("k")
+    if k == "init":
+        vals = [init_value(unit, e) for e in n["e"]]
+        t = unit.type(n["t"]) if "t" in n else None
+        if t is not None and t["k"] == "arr" and t.get("n") is not None and len(vals) < t["n"]:
+            et = unit.type(t["to"])
+            fill = 0 if et["k"] in ("int", "enum", "ptr", "float") else None
+            vals = vals + [fill] * (t["n"] - len(vals))
+        return vals
+    if k == "str":
+        return n.get("v") if "v" in n else bytes.fromhex(n.get("hex", "")).decode("latin1")
+    v = const_val(n)
+    if v is not None:
+        return v
+    if k == "cast":
+        return init_value(unit, n["e"])
+    if k == "other" and n.get("cls") == "ImplicitValueInitExpr":
+        return 0
+    if k == "un" and n["op"] == "&":
+        return {"addr": key(n["e"])}
+    if k == "ref":
+        return {"ref": n["n"]}
+    if k == "complit":
+        return init_value(unit, n["e"])
+    return None
+
+
+def global_value(unit, g):
+    if "v" in g:
+        return g["v"]
+    if "init" in g:
+        return init_value(unit, g["init"])
+    return None
